@@ -697,7 +697,7 @@ func (w *world) startVectors(shs []*shard, ar search.AsyncRequest, syn0 string,
 			})
 		}
 	}()
-	okBudget := 10
+	okBudget := 20
 	for vi0 := range vecs {
 		v := &vecs[(vi0+w.j.N)%len(vecs)]
 		if v.Ok {
